@@ -784,7 +784,9 @@ class Body:
                 _, bb, t = d
                 f = t.get("f")
                 name = f["name"] if f else None
-                if name in self.TRANSPARENT and t["args"] and not f.get("local"):
+                res = f.get("resolved") if f else None
+                res_local = isinstance(res, dict) and res.get("local")
+                if name in self.TRANSPARENT and t["args"] and not f.get("local") and not res_local:
                     marker = self.TRANSPARENT[name]
                     for root, path in self.resolve(t["args"][0], depth + 1, seen):
                         path = list(path)
